@@ -208,14 +208,18 @@ Definition judge_common (tips : bool) (t1 t2 : utree) (o : sexp) : verdict :=
         (if differing_taxa t1 t2 then VOk false "common:err" else VCorr ("implementation refuses: " ++ gerr))
       else match get_Z "tree1" o, get_Z "common" o with
            | Some g1, Some gc =>
-             if negb (Z.eqb g1 m1 && Z.eqb gc mc) then VCorr ("model: tree1=" ++ show_Z m1 ++ " common=" ++ show_Z mc)
-             else if differing_taxa t1 t2 then VOracle "trees on different taxa are not rejected"
-             else if negb (in_domain t1 t2) then VOk false "common:outside"
+             (* the oracle first *)
+             let corr_ok := Z.eqb g1 m1 && Z.eqb gc mc in
+             let mtxt := if corr_ok then "" else " [model: tree1=" ++ show_Z m1 ++ " common=" ++ show_Z mc ++ "]" in
+             if differing_taxa t1 t2 then VOracle ("trees on different taxa are not rejected" ++ mtxt)
+             else if negb (in_domain t1 t2) then
+               (if corr_ok then VOk false "common:outside" else VCorr ("model: tree1=" ++ show_Z m1 ++ " common=" ++ show_Z mc))
              else let c := spec_counts tips t1 t2 in
                   if Z.eqb g1 (zn (c_only1 c)) && Z.eqb gc (zn (c_both c))
-                  then VOk (nontrivial_case t1 t2) ("common" ++ (if tips then ":tips" else ""))
-                  else VOracle ("counts: set algebra gives reference-only=" ++ string_of_nat (c_only1 c)
-                                ++ " common=" ++ string_of_nat (c_both c))
+                  then (if corr_ok then VOk (nontrivial_case t1 t2) ("common" ++ (if tips then ":tips" else ""))
+                        else VCorr ("model: tree1=" ++ show_Z m1 ++ " common=" ++ show_Z mc))
+                  else VOracle ("counts: tree1=" ++ show_Z g1 ++ " common=" ++ show_Z gc ++ ", the set algebra gives reference-only="
+                                ++ string_of_nat (c_only1 c) ++ " common=" ++ string_of_nat (c_both c) ++ mtxt)
            | _, _ => VBad "no counts in observation"
            end
     end
